@@ -34,17 +34,47 @@ type aval struct {
 
 type apiece struct{ lo, hi float64 }
 
+// abind is what a local of the closure is bound to at one program point: the
+// expression assigned to it together with the bindings that were in force at
+// the assignment (so that the expression can be re-evaluated on any sub-piece
+// of the input domain and normalised symbolically), or a constant supplied
+// from outside (a captured parameter of a closure factory).
+type abind struct {
+	expr  ast.Expr
+	env   aenv
+	konst *float64
+}
+
+type aenv map[types.Object]*abind
+
+func (e aenv) with(obj types.Object, b *abind) aenv {
+	out := make(aenv, len(e)+1)
+	for k, v := range e {
+		out[k] = v
+	}
+	out[obj] = b
+	return out
+}
+
 type aresult struct {
 	piece apiece
 	expr  ast.Expr
-	env   map[types.Object]aval
+	env   aenv
 	val   aval
+}
+
+// astate is one abstract state of the interpreter: a piece of the input domain and the bindings of the locals.
+type astate struct {
+	p   apiece
+	env aenv
 }
 
 type absInterp struct {
 	info  *types.Info
 	input types.Object
 	fset  *token.FileSet
+	lit   *ast.FuncLit
+	depth int
 }
 
 func flip(m int) int {
@@ -93,7 +123,7 @@ func mulBounds(a, b aval) (lo, hi float64, nan bool) {
 	return
 }
 
-func (ai *absInterp) eval(e ast.Expr, p apiece, env map[types.Object]aval) aval {
+func (ai *absInterp) eval(e ast.Expr, p apiece, env aenv) aval {
 	switch x := e.(type) {
 	case *ast.ParenExpr:
 		return ai.eval(x.X, p, env)
@@ -108,8 +138,16 @@ func (ai *absInterp) eval(e ast.Expr, p apiece, env map[types.Object]aval) aval 
 		if obj == ai.input {
 			return aval{lo: p.lo, hi: p.hi, mono: monoInc}
 		}
-		if v, ok := env[obj]; ok {
-			return v
+		if b, ok := env[obj]; ok {
+			if b.konst != nil {
+				return aval{lo: *b.konst, hi: *b.konst, mono: monoConst}
+			}
+			ai.depth++
+			defer func() { ai.depth-- }()
+			if ai.depth > 200 {
+				return aval{bad: "bindings nested too deeply"}
+			}
+			return ai.eval(b.expr, p, b.env)
 		}
 		if c, ok := obj.(*types.Const); ok {
 			f, _ := constant.Float64Val(c.Val())
@@ -328,7 +366,7 @@ func unparen(e ast.Expr) ast.Expr {
 }
 
 // split refines piece p by condition c into the sub-pieces where c is true / false.
-func (ai *absInterp) split(c ast.Expr, p apiece, env map[types.Object]aval) (t, f []apiece, bad string) {
+func (ai *absInterp) split(c ast.Expr, p apiece, env aenv) (t, f []apiece, bad string) {
 	switch x := unparen(c).(type) {
 	case *ast.BinaryExpr:
 		switch x.Op {
@@ -364,7 +402,7 @@ func (ai *absInterp) split(c ast.Expr, p apiece, env map[types.Object]aval) (t, 
 			return t, f, ""
 		case token.LSS, token.LEQ, token.GTR, token.GEQ, token.EQL, token.NEQ:
 			lhs, rhs, op := x.X, x.Y, x.Op
-			if id, ok := unparen(rhs).(*ast.Ident); ok && ai.info.Uses[id] == ai.input {
+			if ai.isInput(rhs, env) && !ai.isInput(lhs, env) {
 				lhs, rhs = rhs, lhs
 				switch op {
 				case token.LSS:
@@ -377,8 +415,7 @@ func (ai *absInterp) split(c ast.Expr, p apiece, env map[types.Object]aval) (t, 
 					op = token.LEQ
 				}
 			}
-			id, ok := unparen(lhs).(*ast.Ident)
-			if !ok || ai.info.Uses[id] != ai.input {
+			if !ai.isInput(lhs, env) {
 				return nil, nil, "condition " + types.ExprString(c) + " does not compare the input with a constant"
 			}
 			cv := ai.eval(rhs, p, env)
@@ -426,7 +463,7 @@ func (ai *absInterp) split(c ast.Expr, p apiece, env map[types.Object]aval) (t, 
 		}
 	case *ast.CallExpr:
 		if len(x.Args) == 1 {
-			if id, ok := unparen(x.Args[0]).(*ast.Ident); ok && ai.info.Uses[id] == ai.input {
+			if ai.isInput(x.Args[0], env) {
 				switch {
 				case ai.isMathFunc(x.Fun, "IsNaN"):
 					return nil, []apiece{p}, "" // the domain holds no NaN
@@ -450,96 +487,261 @@ func (ai *absInterp) split(c ast.Expr, p apiece, env map[types.Object]aval) (t, 
 	return nil, nil, "condition " + types.ExprString(c) + " is outside the condition table"
 }
 
-// run evaluates the statements on piece p; falls through are reported.
-func (ai *absInterp) run(stmts []ast.Stmt, p apiece, env map[types.Object]aval, out *[]aresult) (fallsThrough bool, bad string) {
-	for i, s := range stmts {
-		switch x := s.(type) {
-		case *ast.ReturnStmt:
-			if len(x.Results) != 1 {
-				return false, "return with other than one result"
-			}
-			*out = append(*out, aresult{piece: p, expr: x.Results[0], env: env, val: ai.eval(x.Results[0], p, env)})
-			return false, ""
-		case *ast.AssignStmt:
-			if x.Tok != token.DEFINE && x.Tok != token.ASSIGN || len(x.Lhs) != len(x.Rhs) {
-				return false, "assignment form outside the table"
-			}
-			env2 := map[types.Object]aval{}
-			for k, v := range env {
-				env2[k] = v
-			}
-			for j, l := range x.Lhs {
-				id, ok := l.(*ast.Ident)
-				if !ok {
-					return false, "assignment to a non-identifier"
-				}
-				obj := ai.info.Defs[id]
-				if obj == nil {
-					obj = ai.info.Uses[id]
-				}
-				env2[obj] = ai.eval(x.Rhs[j], p, env)
-			}
-			env = env2
-		case *ast.IfStmt:
-			if x.Init != nil {
-				return false, "if with an init statement"
-			}
-			tp, fp, b := ai.split(x.Cond, p, env)
-			if b != "" {
-				return false, b
-			}
-			rest := stmts[i+1:]
-			for _, q := range tp {
-				ft, b := ai.run(x.Body.List, q, env, out)
-				if b != "" {
-					return false, b
-				}
-				if ft {
-					if ft2, b := ai.run(rest, q, env, out); b != "" || ft2 {
-						return ft2, b
-					}
-				}
-			}
-			for _, q := range fp {
-				var ft bool
-				var b string
-				switch e := x.Else.(type) {
-				case nil:
-					ft = true
-				case *ast.BlockStmt:
-					ft, b = ai.run(e.List, q, env, out)
-				case *ast.IfStmt:
-					ft, b = ai.run([]ast.Stmt{e}, q, env, out)
-				}
-				if b != "" {
-					return false, b
-				}
-				if ft {
-					if ft2, b := ai.run(rest, q, env, out); b != "" || ft2 {
-						return ft2, b
-					}
-				}
-			}
-			return false, ""
-		default:
-			return false, fmt.Sprintf("statement %T is outside the table", s)
+// isInput reports whether e denotes the closure's input value: the parameter
+// itself, or a local that is bound to it (an alias such as `v := input`).
+func (ai *absInterp) isInput(e ast.Expr, env aenv) bool {
+	for n := 0; n < 50; n++ {
+		id, ok := unparen(e).(*ast.Ident)
+		if !ok {
+			return false
 		}
+		obj := ai.info.Uses[id]
+		if obj == ai.input {
+			return true
+		}
+		b, ok := env[obj]
+		if !ok || b.konst != nil {
+			return false
+		}
+		e, env = b.expr, b.env
 	}
-	return true, ""
+	return false
 }
 
-// analyseScalar interprets a scalar activation closure over [-1e300, 1e300].
-func analyseScalar(info *types.Info, lit *ast.FuncLit) (res []aresult, ai *absInterp, bad string) {
+// local reports whether obj is declared inside the closure (and is not its input): only such variables may be
+// assigned, anything else is state that outlives one activation.
+func (ai *absInterp) local(obj types.Object) bool {
+	return obj != nil && obj != ai.input && ai.lit != nil && obj.Pos() >= ai.lit.Body.Pos() && obj.Pos() < ai.lit.End()
+}
+
+// run evaluates the statements from every state in `in`; the states in which control reaches the end of the
+// list are returned, every return statement met on the way is recorded in out.
+func (ai *absInterp) run(stmts []ast.Stmt, in []astate, out *[]aresult) (fall []astate, bad string) {
+	cur := in
+	for _, s := range stmts {
+		if len(cur) == 0 {
+			break // the remaining statements are not reachable
+		}
+		var next []astate
+		for _, st := range cur {
+			n, b := ai.step(s, st, out)
+			if b != "" {
+				return nil, b
+			}
+			next = append(next, n...)
+		}
+		cur = next
+	}
+	return cur, ""
+}
+
+// branch splits every state by the disjunction of conds (evaluated left to right, like || and like the
+// expression list of a case clause).
+func (ai *absInterp) branch(conds []ast.Expr, in []astate) (t, f []astate, bad string) {
+	f = in
+	for _, c := range conds {
+		var rest []astate
+		for _, st := range f {
+			tp, fp, b := ai.split(c, st.p, st.env)
+			if b != "" {
+				return nil, nil, b
+			}
+			for _, q := range tp {
+				t = append(t, astate{q, st.env})
+			}
+			for _, q := range fp {
+				rest = append(rest, astate{q, st.env})
+			}
+		}
+		f = rest
+	}
+	return t, f, ""
+}
+
+func (ai *absInterp) assign(lhs ast.Expr, tok token.Token, rhs ast.Expr, st astate, cur aenv) (aenv, string) {
+	id, ok := lhs.(*ast.Ident)
+	if !ok {
+		return nil, "assignment to a non-identifier"
+	}
+	if id.Name == "_" {
+		return cur, ""
+	}
+	obj := ai.info.Defs[id]
+	if obj == nil {
+		obj = ai.info.Uses[id]
+	}
+	if obj == ai.input {
+		return nil, "the input parameter is re-assigned"
+	}
+	if !ai.local(obj) {
+		return nil, "assignment to " + id.Name + ", which is not a local of the closure"
+	}
+	switch tok {
+	case token.DEFINE, token.ASSIGN:
+	case token.ADD_ASSIGN, token.SUB_ASSIGN, token.MUL_ASSIGN, token.QUO_ASSIGN:
+		op := map[token.Token]token.Token{token.ADD_ASSIGN: token.ADD, token.SUB_ASSIGN: token.SUB, token.MUL_ASSIGN: token.MUL, token.QUO_ASSIGN: token.QUO}[tok]
+		rhs = &ast.BinaryExpr{X: id, Op: op, Y: &ast.ParenExpr{X: rhs}}
+	default:
+		return nil, "assignment form outside the table"
+	}
+	// the right-hand side is evaluated in the bindings before the statement (st.env)
+	return cur.with(obj, &abind{expr: rhs, env: st.env}), ""
+}
+
+// step evaluates one statement from one state.
+func (ai *absInterp) step(s ast.Stmt, st astate, out *[]aresult) (fall []astate, bad string) {
+	switch x := s.(type) {
+	case *ast.ReturnStmt:
+		if len(x.Results) != 1 {
+			return nil, "return with other than one result"
+		}
+		*out = append(*out, aresult{piece: st.p, expr: x.Results[0], env: st.env, val: ai.eval(x.Results[0], st.p, st.env)})
+		return nil, ""
+	case *ast.EmptyStmt:
+		return []astate{st}, ""
+	case *ast.BlockStmt:
+		return ai.run(x.List, []astate{st}, out)
+	case *ast.AssignStmt:
+		if len(x.Lhs) != len(x.Rhs) {
+			return nil, "assignment form outside the table"
+		}
+		env := st.env
+		for j, l := range x.Lhs {
+			var b string
+			if env, b = ai.assign(l, x.Tok, x.Rhs[j], st, env); b != "" {
+				return nil, b
+			}
+		}
+		return []astate{{st.p, env}}, ""
+	case *ast.DeclStmt:
+		gd, ok := x.Decl.(*ast.GenDecl)
+		if !ok || (gd.Tok != token.VAR && gd.Tok != token.CONST) {
+			return nil, "declaration outside the table"
+		}
+		if gd.Tok == token.CONST {
+			return []astate{st}, "" // constants are folded by the type checker
+		}
+		env := st.env
+		for _, sp := range gd.Specs {
+			vs, ok := sp.(*ast.ValueSpec)
+			if !ok || (len(vs.Values) != 0 && len(vs.Values) != len(vs.Names)) {
+				return nil, "declaration outside the table"
+			}
+			for j, id := range vs.Names {
+				if len(vs.Values) == 0 {
+					obj := ai.info.Defs[id]
+					if obj == nil || !isFloatType(obj.Type()) {
+						return nil, "declaration of a non-float local without a value"
+					}
+					zero := 0.0
+					env = env.with(obj, &abind{konst: &zero})
+					continue
+				}
+				var b string
+				if env, b = ai.assign(id, token.DEFINE, vs.Values[j], st, env); b != "" {
+					return nil, b
+				}
+			}
+		}
+		return []astate{{st.p, env}}, ""
+	case *ast.IfStmt:
+		in := []astate{st}
+		if x.Init != nil {
+			var b string
+			if in, b = ai.step(x.Init, st, out); b != "" {
+				return nil, b
+			}
+		}
+		t, f, b := ai.branch([]ast.Expr{x.Cond}, in)
+		if b != "" {
+			return nil, b
+		}
+		if fall, b = ai.run(x.Body.List, t, out); b != "" {
+			return nil, b
+		}
+		switch e := x.Else.(type) {
+		case nil:
+			fall = append(fall, f...)
+		case *ast.BlockStmt, *ast.IfStmt:
+			fe, b := ai.run([]ast.Stmt{e}, f, out)
+			if b != "" {
+				return nil, b
+			}
+			fall = append(fall, fe...)
+		default:
+			return nil, "else form outside the table"
+		}
+		return fall, ""
+	case *ast.SwitchStmt:
+		// tagless switch: the case clauses are tried in source order, the first true one runs, default runs when none is
+		if x.Tag != nil {
+			return nil, "switch with a tag expression"
+		}
+		in := []astate{st}
+		if x.Init != nil {
+			var b string
+			if in, b = ai.step(x.Init, st, out); b != "" {
+				return nil, b
+			}
+		}
+		var deflt *ast.CaseClause
+		for _, c := range x.Body.List {
+			cc, ok := c.(*ast.CaseClause)
+			if !ok {
+				return nil, "switch clause outside the table"
+			}
+			if cc.List == nil {
+				deflt = cc
+				continue
+			}
+			t, f, b := ai.branch(cc.List, in)
+			if b != "" {
+				return nil, b
+			}
+			ft, b := ai.run(cc.Body, t, out) // break / fallthrough are statements outside the table
+			if b != "" {
+				return nil, b
+			}
+			fall = append(fall, ft...)
+			in = f
+		}
+		if deflt != nil {
+			ft, b := ai.run(deflt.Body, in, out)
+			if b != "" {
+				return nil, b
+			}
+			fall = append(fall, ft...)
+		} else {
+			fall = append(fall, in...)
+		}
+		return fall, ""
+	}
+	return nil, fmt.Sprintf("statement %T is outside the table", s)
+}
+
+func isFloatType(t types.Type) bool {
+	b, ok := t.Underlying().(*types.Basic)
+	return ok && b.Info()&types.IsFloat != 0
+}
+
+// analyseScalar interprets a scalar activation closure over [-1e300, 1e300]. bind gives the constants that
+// variables captured from a closure factory are known to hold (nil for a plain function literal).
+func analyseScalar(info *types.Info, lit *ast.FuncLit, bind aenv) (res []aresult, ai *absInterp, bad string) {
 	if lit.Type.Params == nil || len(lit.Type.Params.List) == 0 || len(lit.Type.Params.List[0].Names) == 0 {
 		return nil, nil, "no input parameter"
 	}
-	ai = &absInterp{info: info, input: info.Defs[lit.Type.Params.List[0].Names[0]]}
-	ft, b := ai.run(lit.Body.List, apiece{-1e300, 1e300}, map[types.Object]aval{}, &res)
+	ai = &absInterp{info: info, input: info.Defs[lit.Type.Params.List[0].Names[0]], lit: lit}
+	if bind == nil {
+		bind = aenv{}
+	}
+	ft, b := ai.run(lit.Body.List, []astate{{apiece{-1e300, 1e300}, bind}}, &res)
 	if b != "" {
 		return nil, ai, b
 	}
-	if ft {
-		return nil, ai, "control can reach the end of the function without a return"
+	for _, st := range ft {
+		if st.p.lo <= st.p.hi {
+			return nil, ai, "control can reach the end of the function without a return"
+		}
 	}
 	sort.SliceStable(res, func(i, j int) bool {
 		if res[i].piece.lo != res[j].piece.lo {
